@@ -248,7 +248,7 @@ func rconfigs(tier string) []rconfig {
 	// a jump in the writer's sequence numbers across the slot of a packet whose retransmission is under way, then
 	// consecutive packets round the ring onto that slot (a slot released twice recycles the copy being retransmitted)
 	for _, rtx := range []bool{false, true} {
-		out = append(out, rconfig{Size: 2, RTX: rtx, Writes: 3, Third: "", Bound: b, Gap: 1})
+		out = append(out, rconfig{Size: 2, RTX: rtx, Writes: 3, Third: "", Bound: b + 2, Gap: 1})
 	}
 	out = append(out, rconfig{Size: 4, RTX: false, Writes: 3, Third: "unbind", Bound: b, Gap: 4})
 	if tier == "thorough" {
